@@ -511,6 +511,9 @@ func quickCheck(obs []*Oblig, ms, workers int) {
 			file := filepath.Join(dir, fmt.Sprintf("h%05d_%d.smt2", i, time.Now().UnixNano()))
 			os.WriteFile(file, []byte(text), 0o644)
 			r := runSolver(context.Background(), "z3-new", file, ms, 1)
+			if os.Getenv("GOVC_DEBUG") != "" && r.status == "error" {
+				fmt.Fprintf(os.Stderr, "houdini query error: %s\n", strings.SplitN(r.output, "\n", 2)[0])
+			}
 			os.Remove(file)
 			o.Time = r.secs
 			if r.status == "unsat" {
